@@ -31,6 +31,10 @@ func (dc *decorator) schemaPos(d Doc) Doc { return dc.schemaPosB(d, "") }
 
 func (dc *decorator) schemaPosB(d Doc, boost string) Doc {
 	o, ok := d.(DObj)
+	if b, isBool := d.(DBool); isBool && bool(b) && dc.r.chance(1, 2) {
+		// the boolean schema true is the empty object: it can be decorated too
+		o, ok = DObj{}, true
+	}
 	if !ok {
 		return d
 	}
@@ -389,9 +393,12 @@ func (g *genCtx) smallArrDoc() (Doc, []Doc) {
 	if r.chance(2, 3) {
 		o = append(o, DMem{"prefixItems", DArr{leaf(), leaf()}[:1+r.intn(2)]})
 	}
-	switch r.intn(6) {
+	switch r.intn(7) {
 	case 0:
 		o = append(o, DMem{"items", leaf()})
+	case 6:
+		// what contains matched counts as evaluated for unevaluatedItems (also when it is `true`)
+		o = append(o, DMem{"contains", pick(r, []Doc{DBool(true), DObj{}, leaf()})}, DMem{"minContains", DNum(pick(r, []string{"0", "1", "2"}))}, DMem{"unevaluatedItems", DBool(false)})
 	case 1:
 		o = append(o, DMem{"contains", leaf()}, DMem{"minContains", DNum(pick(r, []string{"0", "1", "2"}))})
 	case 2:
